@@ -254,6 +254,17 @@ MUTANTS = [
 
 # behaviour-preserving rewrites: every listed check must stay silent (exit 0)
 EQUIVALENTS = [
+    ('eq_rwg_count_local', 'bempp_cl/api/space/maxwell_spaces.py', '                if len(supported_neighbors) == 2:\n                    if edge_dofs[edge_index]:', '                n_sup = len(supported_neighbors)\n                if n_sup == 2:\n                    if edge_dofs[edge_index]:', 0, ['C09']),
+    ('eq_rwg_sentinel_full', 'bempp_cl/api/space/maxwell_spaces.py', '    edge_dofs = -_np.ones(number_of_edges, dtype=_np.int32)', '    edge_dofs = _np.full(number_of_edges, -1, dtype=_np.int32)', 0, ['C09', 'C16']),
+    ('eq_p1_interior_inline', 'bempp_cl/api/space/scalar_spaces.py', '            node_is_interior = len(non_support_neighbors) == 0 and not grid_data.vertex_on_boundary[vertex]\n            if include_boundary_dofs or node_is_interior:', '            if include_boundary_dofs or (len(non_support_neighbors) == 0 and not grid_data.vertex_on_boundary[vertex]):', 0, ['C09']),
+    ('eq_sum_guard_demorgan', 'bempp_cl/api/assembly/boundary_operator.py', '        if (\n            not op1.domain.is_compatible(op2.domain)\n            or not op1.range.is_compatible(op2.range)\n            or not op1.dual_to_range.is_compatible(op2.dual_to_range)\n        ):', '        if not (\n            op1.domain.is_compatible(op2.domain)\n            and op1.range.is_compatible(op2.range)\n            and op1.dual_to_range.is_compatible(op2.dual_to_range)\n        ):', 0, ['C14']),
+    ('eq_setitem_nested_and', 'bempp_cl/api/assembly/blocked_operator.py', '        if self.range_spaces[row] is not None:\n            if operator.range != self.range_spaces[row]:', '        if self.range_spaces[row] is not None and operator.range != self.range_spaces[row]:\n            if True:', 0, ['C14']),
+    ('eq_union_offset_name', 'bempp_cl/api/grid/grid.py', '                domain_indices.append(domain_indices[-1].max() + 1 + normalize_array(grid.domain_indices))', '                offset = domain_indices[-1].max() + 1\n                domain_indices.append(offset + normalize_array(grid.domain_indices))', 0, ['C11']),
+    ('eq_bary_memo_ge0', 'bempp_cl/api/grid/grid.py', '            if edge_to_vertex[edge_index] > -1:', '            if edge_to_vertex[edge_index] >= 0:', 0, ['C11', 'C10']),
+    ('eq_dual1_row_18', 'bempp_cl/api/space/scalar_dual_spaces.py', '                bary_dofs[count] = 6 * 3 * face_n + n\n                coarse_dofs[count] = global_dof_index\n                values[count] = 1\n', '                bary_dofs[count] = 18 * face_n + n\n                coarse_dofs[count] = global_dof_index\n                values[count] = 1\n', 0, ['C10', 'C09']),
+    ('eq_fmm_mode_in_tuple', 'bempp_cl/api/fmm/fmm_assembler.py', '    elif descriptor == "helmholtz":\n        return "helmholtz"\n    elif descriptor == "modified":\n        return "modified_helmholtz"\n    elif descriptor == "maxwell":\n        return "helmholtz"', '    elif descriptor in ("helmholtz", "maxwell"):\n        return "helmholtz"\n    elif descriptor == "modified":\n        return "modified_helmholtz"', 0, ['C17']),
+    ('eq_export_data_type_order', 'bempp_cl/api/grid/io.py', '        if data_type == "node":', '        if "node" == data_type:', 0, ['C19']),
+    ('eq_dense_neg_mult', 'bempp_cl/api/assembly/discrete_boundary_operator.py', '        return DenseDiscreteBoundaryOperator(-self.to_dense())', '        return DenseDiscreteBoundaryOperator(-(self.to_dense()))', 0, ['C14']),
     ("eq_blocked_product_guard_not_eq", "bempp_cl/api/assembly/blocked_operator.py", "        if op2.range_spaces != op1.domain_spaces:", "        if not (op1.domain_spaces == op2.range_spaces):", 0, ["C14"]),
     ("eq_p1_dof_table_init", "bempp_cl/api/space/scalar_spaces.py", "    dofs = -_np.ones(number_of_vertices)", "    dofs = _np.zeros(number_of_vertices)", 0, ["C09", "C16"]),
     ("eq_rwg_dofmap_init", "bempp_cl/api/space/maxwell_spaces.py", "        dofmap = -_np.ones(3, dtype=_np.int32)", "        dofmap = _np.zeros(3, dtype=_np.int32)", 0, ["C09", "C16"]),
